@@ -9,7 +9,9 @@
   evaluated here).  Answer `cert ok` when the input is not finite / the tolerance invalid, or the
   certificate `cleanB` evaluates to `true` (then the theorem says: this run can only panic on the
   assertion or a NaN sort key); `cert FAIL …` for a finite input whose certificate is false - a
-  counterexample to winding conservation or to the coherence after a recovery, never seen.
+  counterexample to winding conservation (or to `scanAgreeB`), never seen.  The certificate checks
+  exactly these two things per event; the state after a `recover_from_error` is coherent by the theorem
+  `Lyon.C01b.recovery_coherent` (all inputs), so it is no longer checked.
 -/
 import LyonVerif.Drive.Common
 import LyonVerif.Drive.SlabIO
